@@ -17,7 +17,7 @@ def frac(v):
 def to_num(v, num):
     """JSON number -> the Python number type named by `num`"""
     q = frac(v)
-    if num == 'int':
+    if num in ('int', 'bigint'):
         assert q.denominator == 1
         return int(q)
     if num == 'Fraction':
@@ -53,6 +53,23 @@ def to_frac(x):
     if y.is_Rational:
         return Fraction(int(y.p), int(y.q))
     raise TypeError('not an exact number: %r' % (x,))
+
+
+def get_backend(name):
+    """the documented optional `backend=` argument of Reaction.rate / ReactionSystem.rates"""
+    import math
+    if name in (None, 'math'):
+        return math
+    if name == 'numpy':
+        import numpy
+        return numpy
+    if name == 'sympy':
+        import sympy
+        return sympy
+    if name == 'units':
+        from chempy.units import Backend
+        return Backend()
+    raise ValueError(name)
 
 
 def mk_reaction(spec, num):
@@ -99,6 +116,8 @@ def rate_of(spec, conc):
 
 # ------------------------------------------------------------------------------------------------
 def rand_rat(rng, num, small=False):
+    if num == 'bigint':      # Python ints beyond 2**63 after a few multiplications (exact in Python, wrap-around in fixed-width backends)
+        return rng.choice([0, 1, 3, rng.randint(2, 10 ** 6), rng.randint(1, 9) * 10 ** 7, rng.randint(10 ** 7, 10 ** 9), -rng.randint(1, 10 ** 8)])
     if num == 'int':
         return rng.choice([0, 1, 1, 2, 3, 5, 7, -1, -2]) if not small else rng.choice([0, 1, 2, 3])
     if num == 'float':
@@ -132,7 +151,7 @@ def rand_reaction(rng, subst, num, cmax=3, inactive_p=0.35, catalyst_p=0.3):
 
 
 def rand_system(rng, tier, num=None, smax=None, rmax=None):
-    num = num or rng.choice(['Fraction', 'Fraction', 'int', 'Rational', 'float'])
+    num = num or rng.choice(['Fraction', 'Fraction', 'int', 'Rational', 'float', 'bigint'])
     smax = smax or (8 if tier == 'quick' else 12)
     rmax = rmax or (6 if tier == 'quick' else 12)
     ns = rng.randint(1, smax)
